@@ -20,9 +20,12 @@ ASSUMPTIONS = [
 ]
 
 POOLS = [
-    [T('double'), T('ns::Pose3'), T('size_t'), T('Cam', t=[T('ns::Cal')]), T('3'), T('test'), T('n1::n2::X')],
-    [T('int'), T('gt::Rot2'), T('string'), T('Cam', t=[T('ns::Cal'), T('int')]), T('7'), T('aaba'), T('m::k::Y')],
-    [T('float'), T('x::Point'), T('bool'), T('Pin', t=[T('Cam', t=[T('ns::Cal')])]), T('12'), T('stats'), T('p::q::Z')],
+    [T('double'), T('ns::Pose3'), T('size_t'), T('Cam', t=[T('ns::Cal')]), T('3'), T('test'), T('n1::n2::X'),
+     T('vector', t=[T('geo::Point2')]), T('keyType')],
+    [T('int'), T('gt::Rot2'), T('string'), T('Cam', t=[T('ns::Cal'), T('int')]), T('7'), T('aaba'), T('m::k::Y'),
+     T('list', t=[T('geo::Pose3')]), T('valueType')],
+    [T('float'), T('x::Point'), T('bool'), T('Pin', t=[T('Cam', t=[T('ns::Cal')])]), T('12'), T('stats'), T('p::q::Z'),
+     T('deque', t=[T('ns::Rot3')]), T('camelCaseName')],
 ]
 PNAMES = ['T', 'POSE', 'U1']
 
@@ -74,6 +77,18 @@ def gen_cases(seed, thorough):
                 for depth in (0, 1, 2):
                     yield 'header-class', wrap_ns(surround([class_decl(tpl)]), depth)
                     yield 'header-func', wrap_ns(surround([func_decl(tpl)]), depth)
+    # 1b. lower-case and camelCase argument names (capitalisation of the first letter only), and namespace chains that
+    #     repeat a name
+    for lengths in ([2], [1, 2]):
+        tpl = header(lengths, pool, 7)
+        yield 'header-class', wrap_ns(surround([class_decl(tpl)]), 1)
+        yield 'header-func', wrap_ns(surround([func_decl(tpl)]), 1)
+        tpl = header(lengths, pool, 0)
+        for path in (['outer', 'inner', 'outer'], ['outer', 'outer'], ['sensors', 'detail', 'sensors', 'detail']):
+            yield 'header-class/repeated-namespace-name', wrap_ns_path(surround([class_decl(tpl), func_decl(tpl)]), path)
+            td = D.typedef(T('::'.join(path + ['Tg']), t=[pool[1]]), 'EasyRep')
+            yield 'typedef-class/repeated-namespace-name', surround([td] + wrap_ns_path([class_decl(header([0], pool), 'Tg')], path))
+            yield 'typedef-fwd/repeated-namespace-name', surround(wrap_ns_path([D.fwd('Tg'), td], path))
     # 2. member-level templates combined with class-level ones
     mp_max, ml_max = (2, 4) if thorough else (2, 3)
     for clen in ([], [1], [2], [2, 1]) if not thorough else ([], [1], [2], [3], [2, 2]):
@@ -144,6 +159,10 @@ def gen_cases(seed, thorough):
             if order:
                 tds.reverse()
             decls = [D.ns('left', [tgt(nm)]), tgt(nm), D.ns('right', [D.ns('inner', [tgt(nm)])])]
+            # an unqualified typedef inside a namespace that has a template of that name itself
+            bare = D.typedef(T(nm, t=[pool[0], pool[2]]), 'BareInLeft')
+            yield 'typedef-%s/same-name-in-3-namespaces/unqualified-inside-namespace' % tk, surround(
+                tds + [D.ns('left', [tgt(nm), bare]), tgt(nm), D.ns('right', [D.ns('inner', [tgt(nm), D.typedef(T(nm, t=[pool[1], pool[0]]), 'BareInInner')])])])
             yield 'typedef-%s/same-name-in-3-namespaces' % tk, surround(tds + decls)
             yield 'typedef-%s/same-name-in-3-namespaces/typedefs-last' % tk, surround(decls + tds)
             yield 'typedef-%s/same-name-in-3-namespaces/typedefs-between' % tk, surround(decls[:1] + tds + decls[1:])
